@@ -2,5 +2,6 @@ SPECIFICATION Spec
 CONSTANTS
   Defect = "crosswire"
   MaxChanges = 1
+  FocusKeys = {}
 INVARIANT Reaches
 CHECK_DEADLOCK FALSE
